@@ -338,6 +338,159 @@ def run_csv(case):
 
 
 # ---------------------------------------------------------------------------------------------
+# multi-value assignments: one write whose values need several different promotions, in every order
+# ---------------------------------------------------------------------------------------------
+MULTI_BASES = {'bool': [True, False, True], 'int': [1, 2, 3], 'int?': [1, None, 3], 'float': [1.5, 2.5, 3.5],
+               'bool?': [True, None, False]}
+MULTI_VALUES = [True, 7, 2.5, 1 + 2j, None]          # one value per rung of the ladder, and None
+
+
+def run_multi(case):
+    """Every way of writing len(vals) values at once into a 3-element vector / table column."""
+    fails, seen = [], set()
+    base = MULTI_BASES[case['base']]
+    vals = ev(case['vals'])
+    k = len(vals)
+    src = f'Vector({lit(base)})'
+
+    def forms(xs):
+        out = [('list', lambda: list(xs)), ('tuple', lambda: tuple(xs))]
+        try:
+            probe = Vector(list(xs))
+            if not isinstance(probe, Table) and not truthful(probe):
+                out.append(('vector', lambda: Vector(list(xs))))
+        except Exception:
+            pass
+        return out
+
+    if k == 2:
+        keys = [('slice', 'v[0:2]', lambda: slice(0, 2)), ('slice', 'v[1:3]', lambda: slice(1, 3)),
+                ('slice', 'v[::2]', lambda: slice(None, None, 2)), ('slice', 'v[::-2]', lambda: slice(None, None, -2)),
+                ('mask', 'v[[True, True, False]]', lambda: [True, True, False]),
+                ('mask', 'v[[True, False, True]]', lambda: [True, False, True]),
+                ('mask', 'v[Vector([False, True, True])]', lambda: Vector([False, True, True])),
+                ('index-list', 'v[[0, 1]]', lambda: [0, 1]), ('index-list', 'v[[2, 0]]', lambda: [2, 0]),
+                ('index-list', 'v[(1, 2)]', lambda: (1, 2)), ('index-list', 'v[[-1, -3]]', lambda: [-1, -3]),
+                ('index-vector', 'v[Vector([1, 0])]', lambda: Vector([1, 0]))]
+    else:
+        keys = [('slice', 'v[:]', lambda: slice(None)), ('slice', 'v[::-1]', lambda: slice(None, None, -1)),
+                ('mask', 'v[[True, True, True]]', lambda: [True, True, True]),
+                ('index-list', 'v[[0, 1, 2]]', lambda: [0, 1, 2]), ('index-list', 'v[[2, 0, 1]]', lambda: [2, 0, 1]),
+                ('index-vector', 'v[Vector([1, 2, 0])]', lambda: Vector([1, 2, 0]))]
+    for site, ktxt, mkkey in keys:
+        for fname, mkval in forms(vals):
+            v = Vector(list(base))
+            try:
+                v[mkkey()] = mkval()
+            except Exception:
+                continue                       # a refused write is outside the quantifier
+            audit(f'Vector.setitem:{site}:multi-value', v, f'v = {src}; {ktxt} = {fname} {lit(vals)}', fails, seen)
+
+    # the same writes through a table: region assignment delegates to the columns
+    def mkt():
+        return Table({'k': [10, 20, 30], 'v': list(base)})
+    rows = [('0:2', slice(0, 2)), ('1:3', slice(1, 3))] if k == 2 else [(':', slice(None)), ('::-1', slice(None, None, -1))]
+    what = f"t = Table({{'k': [10, 20, 30], 'v': {lit(base)}}})"
+    for rtxt, rs in rows:
+        for fname, mkval in forms(vals):
+            for ctxt, cs in (("'v'", 'v'), ('1', 1)):
+                t = mkt()
+                try:
+                    t[rs, cs] = mkval()
+                except Exception:
+                    continue
+                audit('Table.setitem:column-region:multi-value', t, f'{what}; t[{rtxt}, {ctxt}] = {fname} {lit(vals)}', fails, seen)
+        t = mkt()
+        try:
+            t[rs, 1:2] = Table({'w': list(vals)})
+            audit('Table.setitem:table-region:multi-value', t, f"{what}; t[{rtxt}, 1:2] = Table({{'w': {lit(vals)}}})", fails, seen)
+        except Exception:
+            pass
+        # both columns in one statement, the key column receiving the same values in reverse order
+        for fname, wrap in (('list', list), ('tuple', tuple)):
+            t = mkt()
+            try:
+                t[rs, :] = wrap([wrap(reversed(vals)), wrap(vals)])
+                audit('Table.setitem:columns-region:multi-value', t, f'{what}; t[{rtxt}, :] = {fname} of columns [{lit(list(reversed(vals)))}, '
+                      f'{lit(vals)}]', fails, seen)
+            except Exception:
+                pass
+        t = mkt()
+        try:
+            t[rs, ('k', 'v')] = Table({'a': list(reversed(vals)), 'b': list(vals)})
+            audit('Table.setitem:table-region:multi-value', t, f'{what}; t[{rtxt}, ("k", "v")] = two-column Table', fails, seen)
+        except Exception:
+            pass
+    return fails
+
+
+# ---------------------------------------------------------------------------------------------
+# aggregate / window result columns: truthful AND labelled as ordinary inference labels the produced values
+# ---------------------------------------------------------------------------------------------
+AGG_KEYS = [[1, 1, 2], [1, 2, 2], [1, 1, 1], [1, 2, 3], [None, 1, None], ['a', 'b', 'a']]
+AGG_VALUES = [[True, False, True], [True, True, False], [True, None, False], [None, True, True],          # bool, bool?
+              [1, None, 2], [None, 1, 1], [None, None, 3],                                                  # int?
+              [1.5, None, 2.0], [None, 0.5, 0.5], [None, None, 1.5],                                        # float?
+              [None, None, None],                                                                           # all None
+              [1, 2, 2], [1.5, 2.5, 2.5], [1 + 2j, None, 2j]]                                               # controls: int, float, complex?
+
+
+def infer_oracle(values):
+    """(kind, nullable) by the ordinary inference rule, or None where this block has no opinion."""
+    kinds = {type(x) for x in values if x is not None}
+    nullable = any(x is None for x in values)
+    if not kinds:
+        return (object, True)
+    if len(kinds) == 1:
+        return (next(iter(kinds)), nullable)
+    if kinds <= set(NUM_LADDER):
+        return (max(kinds, key=NUM_LADDER.index), nullable)
+    return None
+
+
+def run_aggdtype(case):
+    fails, seen = [], set()
+    kc, vc = AGG_KEYS[case['k']], AGG_VALUES[case['v']]
+    op = case['top']
+    what = f"Table({{'k': {lit(kc)}, 'v': {lit(vc)}}})"
+
+    def mk():
+        return Table({'k': list(kc), 'v': list(vc)})
+
+    calls = [(f, {f + '_over': 'v'}, f'{f}_over="v"') for f in FUNCS]
+    calls.append(('all', {f + '_over': 'v' for f in FUNCS}, 'all six functions over "v"'))
+    calls.append(('twice', {'sum_over': ['v', 'v'], 'min_over': ['v', 'k']}, 'sum_over=["v", "v"], min_over=["v", "k"]'))
+    for f, kw, ktxt in calls:
+        try:
+            r = getattr(mk(), op)(over='k', **kw)
+        except Exception:
+            continue
+        if not isinstance(r, Table):
+            continue
+        desc = f'{what}.{op}(over="k", {ktxt})'
+        site = f'Table.{op}:{f}'
+        audit(site, r, desc, fails, seen)
+        for j, c in enumerate(r.cols()):
+            try:
+                produced = list(c._underlying)
+            except Exception:
+                continue
+            want = infer_oracle(produced)
+            dt = c.schema()
+            if want is None or truthful(c):
+                continue
+            got = None if dt is None else (dt.kind, dt.nullable)
+            if got != want:
+                cls = 'nullable-flag' if got is not None and got[0] is want[0] else 'kind'
+                key = f'C03:{site}:dtype-not-inferred:{cls}'
+                if key not in seen:
+                    seen.add(key)
+                    fails.append(Fail(key, f'{desc}: column {j} ({c._name!r}) holds {produced!r} labelled {dt!r}; ordinary inference on these '
+                                      f'values gives <{want[0].__name__}{"?" if want[1] else ""}>', want, got))
+    return fails
+
+
+# ---------------------------------------------------------------------------------------------
 def cases(tier, seed):
     q = tier == 'quick'
     for ln in range(0, 4):
@@ -360,6 +513,14 @@ def cases(tier, seed):
                 yield {'op': 'tab', 'k': k, 'v': v, 'top': top}
     for i in range(len(CSV_TEXTS)):
         yield {'op': 'csv', 'i': i}
+    for base in MULTI_BASES:
+        for k in (2, 3):
+            for combo in itertools.product(MULTI_VALUES, repeat=k):
+                yield {'op': 'multi', 'base': base, 'vals': lit(list(combo))}
+    for k in range(len(AGG_KEYS)):
+        for v in range(len(AGG_VALUES)):
+            for top in ('aggregate', 'window'):
+                yield {'op': 'aggdtype', 'k': k, 'v': v, 'top': top}
 
 
 def evaluate(case):
@@ -367,6 +528,10 @@ def evaluate(case):
         return run_group(ev(case['values']), case['group'], bool(case.get('lite')))
     if case['op'] == 'tab':
         return run_table(case)
+    if case['op'] == 'multi':
+        return run_multi(case)
+    if case['op'] == 'aggdtype':
+        return run_aggdtype(case)
     return run_csv(case)
 
 
@@ -378,6 +543,11 @@ def nontrivial(case):
         return (case['group'], tuple(sorted({type(x).__name__ for x in vals})), len(vals))
     if case['op'] == 'tab':
         return ('tab', case['k'], case['v'], case['top'])
+    if case['op'] == 'multi':
+        vals = ev(case['vals'])
+        return ('multi', case['base'], tuple(type(x).__name__ for x in vals))
+    if case['op'] == 'aggdtype':
+        return ('aggdtype', case['k'], case['v'], case['top'])
     return ('csv', case['i'])
 
 
